@@ -268,6 +268,24 @@ static RouteResult run_route(char kind, bool mem, const std::vector<uint8_t>& fi
                 r.fdnote = "second-load-through-the-same-descriptor-gives-other-bytes";
             else if (fcntl(fd, F_GETFD) == -1)
                 r.fdnote = "descriptor-closed-by-the-library";
+            else {
+                // any valid descriptor number will do, 0 included (what open() returns once stdin is closed)
+                int saved0 = dup(0);
+                if (dup2(fd, 0) == 0) {
+                    int rc3 = -1;
+                    std::string bytes3;
+                    lseek(0, 0, SEEK_SET);
+                    reload_fd(kind, 0, &rc3, &bytes3);
+                    if (rc3 != r.rc || (rc3 == SB_SUCCESS && bytes3 != r.bytes))
+                        r.fdnote = "load-through-descriptor-number-0-rc=" + std::to_string(rc3);
+                    if (saved0 >= 0)
+                        dup2(saved0, 0);
+                    else
+                        close(0);
+                }
+                if (saved0 >= 0)
+                    close(saved0);
+            }
         }
         if (r.fdnote.empty())
             close(fd);
